@@ -65,9 +65,35 @@ def r_ops():
 
 from ..eexpr import expr_jobs
 
+
+def conv_jobs(ctx, prefix):
+    """Out-of-range float -> integer casts are undefined behaviour that CBMC's bit-vector semantics hides (the functional contract can hold by accident of
+    the model); its conversion check turns every such cast into an obligation.  Kept: the float->integer ones (integer<->integer conversions are
+    implementation-defined, not undefined).  The check itself wrongly flags the exactly representable minimum (e.g. (I32)-2147483648.0f), so
+    that single operand is excluded here - it is covered by the functional contract of the same macro in the job without this check."""
+    import copy
+    ops = []
+    for o in r_ops():
+        if "TRUNC" not in o.name:
+            continue
+        o2 = copy.copy(o)
+        o2.name = o.name + "_casts"
+        if "_S_" in o.name:
+            ft = o.params[0]
+            mn = "-2147483648.0" if o.name.startswith("I32") else "-9223372036854775808.0"
+            o2.requires = list(o.requires) + ["a0 != (%s)%s" % (ft, mn)]
+        ops.append(o2)
+    js = rjobs(ctx, ops, ["wasm_int.h", "wasm_float.h"], prefix, variant="plain", ub_checks=True)
+    for j in js:
+        j.flags = list(j.flags) + ["--conversion-check"]
+        j.info["drop_props"] = r"arithmetic overflow on (un)?signed to (un)?signed type conversion"
+        j.info["note"] = "CBMC --conversion-check; operand exactly equal to the signed minimum excluded (false alarm of the check)"
+    return js
+
 def make_jobs(ctx):
     jobs = []
     jobs += rjobs(ctx, r_ops(), ["wasm_int.h", "wasm_float.h"], "R", variant="plain", ub_checks=True)
+    jobs += conv_jobs(ctx, "R")
     pm = ProbeModule("c02flt")
     for (op, pt, rt, spec, trap, eq, libm) in float_ops():
         base = op.replace(".", "").replace("_", "")
